@@ -187,6 +187,19 @@ func judge(c Case, w *vkit.W) {
 				w.Fail(c, "not-canonical", fmt.Sprintf("Sprintf(%q, %d) under DefaultFormat subset %#x = %q want %q", v.verb, c.N, c.Default, got, want))
 			}
 		}
+		// the same verbs reach the number inside containers and through the other print functions
+		wl := ref.RomanNumeral(c.N, refFlags(subLong|subLower))
+		for _, v := range []struct{ path, got, want string }{
+			{"Sprint", fmt.Sprint(n), wantDef}, {"Sprintln", fmt.Sprintln(n), wantDef + "\n"}, {"Sprintf(%+v)", fmt.Sprintf("%+v", n), wantDef},
+			{"Sprintf(%v) of a slice", fmt.Sprintf("%v", []roman.Number{n, n}), "[" + wantDef + " " + wantDef + "]"},
+			{"Sprintf(%l) of a slice", fmt.Sprintf(verbLower, []roman.Number{n}), "[" + wl + "]"},
+			{"Sprintf(%v) of a struct", fmt.Sprintf("%v", struct{ N roman.Number }{n}), "{" + wantDef + "}"},
+			{"Sprintf(%s) of an interface value", fmt.Sprintf("%s", any(n)), wantDef},
+		} {
+			if v.got != v.want {
+				w.Fail(c, "not-canonical", fmt.Sprintf("%s of %d under DefaultFormat subset %#x = %q want %q", v.path, c.N, c.Default, v.got, v.want))
+			}
+		}
 		w.RetainBytes(c, "MarshalText", b, wantDef)
 		roundTrip("MarshalText", string(b), c.Default)
 	case "failing-formatter": // replay of phase B2
@@ -208,6 +221,8 @@ func judge(c Case, w *vkit.W) {
 		w.Fail(c, "bad-case", "unknown path "+c.Path)
 	}
 }
+
+var verbLower = "%l" // not a constant: go vet does not know the library's own verbs
 
 func fmtL(n roman.Number) string { return fmt.Sprintf("%l", n) }
 
